@@ -178,6 +178,33 @@ def build0(tier):
                       generics=list(td.generics), generics_decl=td.generics_decl, generics_use=td.generics_use, where=td.where,
                       derives=td.derives, vals=False)
         out.append(Case({**c.klass, "item": "enum"}, [etd], list(c.body), strings=c.strings, extra_items=c.extra_items, decl_types=c.decl_types))
+    # associated types of a concretised parameter: the binding is the one of the item with the concrete
+    # types written out (and the expansion has to state the bounds that makes compile)
+    drv = "pub trait Driver { type Info; }\npub struct TsDriver;\nimpl Driver for TsDriver { type Info = St; }"
+    amenu = [("assoc", "D::Info", []), ("option-assoc", "Option<D::Info>", []), ("optional-assoc", "Option<D::Info>", ["#[ts(optional)]"]),
+             ("optional-nullable-assoc", "Option<D::Info>", ["#[ts(optional = nullable)]"]), ("vec-assoc", "Vec<D::Info>", []),
+             ("option-vec-assoc", "Option<Vec<D::Info>>", ["#[ts(optional)]"])]
+    for lbl, fty, fattr in amenu:
+        for clbl, cattr in (("plain", []), ("optional_fields", ["#[ts(optional_fields)]"]), ("optional_fields-nullable", ["#[ts(optional_fields = nullable)]"])):
+            if cattr and fattr:
+                continue
+            for item in ("struct", "enum"):
+                def mk(name, ty, generic):
+                    fields = [Field("u32", "id"), Field(ty, "info", list(fattr))]
+                    attrs = list(cattr) + (["#[ts(concrete(D = TsDriver))]"] if generic else ['#[ts(rename = "G")]'])
+                    kw = dict(generics=["D"], generics_decl="<D: Driver>", generics_use="<D>") if generic else {}
+                    if item == "struct":
+                        return TypeDef(name, "struct", "named", fields, attrs=attrs, derives=TS_ONLY, vals=False, **kw)
+                    if cattr:
+                        return None
+                    return TypeDef(name, "enum", variants=[Variant("A", "named", fields), Variant("B", "unit")], attrs=attrs, derives=TS_ONLY, vals=False, **kw)
+                g, c = mk("G", fty, True), mk("Gc", fty.replace("D::Info", "St"), False)
+                if g is None:
+                    continue
+                out.append(Case({"family": "generic-concrete-associated-type", "field": lbl, "container": clbl, "item": item}, [g, c],
+                                ['ctx.check_same_string("concrete-parameter-differs-from-writing-the-type-out", &|| <G<TsDriver> as TS>::decl(), &|| <Gc as TS>::decl());',
+                                 'ctx.check_same_string("concrete-parameter-differs-from-writing-the-type-out", &|| <G<TsDriver> as TS>::inline(), &|| <Gc as TS>::inline());'],
+                                extra_items=drv, decl_types=["G<TsDriver>"]))
     # const parameters before / between type parameters
     tdo = TypeDef("G", "struct", "named", [Field("[T; N]", "arr"), Field("T", "t")], generics=["T"], generics_decl="<const N: usize, T>", generics_use="<N, T>", derives=TS_ONLY, vals=False)
     out.append(gcase({"family": "generic-const-order", "order": "const-first"}, tdo, [("T", None)], 1, [(a,) for a in ARGS[:6]], fixed_prefix="2"))
